@@ -365,7 +365,14 @@ def run(rep, tier, seed):
             if sh[0] * sh[1] <= 4:
                 plan.append(dict(shape=sh, sigma='door5', k=2, held='two', chains=[dyn.CHAIN_FULL], actions=R.ACTIONS, only_k=2))
     else:
-        plan = dyn.standard_plan(tier, CHAINS, [dyn.CHAIN_FULL], held_lo='small', held_hi='two', sigma_hi='reduced')
+        plan = []
+        for sh in U.SHAPES_MID:
+            plan.append(dict(shape=sh, sigma='full', k=1, held='small', chains=CHAINS if sh[0] * sh[1] <= 9 else [dyn.CHAIN_FULL],
+                             actions=R.ACTIONS))
+            if sh[0] * sh[1] <= 6:
+                plan.append(dict(shape=sh, sigma='reduced', k=2, held='two', chains=[dyn.CHAIN_FULL], actions=R.ACTIONS, only_k=2))
+            elif sh[0] * sh[1] <= 9:
+                plan.append(dict(shape=sh, sigma='door5', k=2, held='two', chains=[dyn.CHAIN_FULL], actions=R.ACTIONS, only_k=2))
     for e in plan:
         e['cost'] = 12  # relative cost of one case (job sizing)
     tot = dyn.run_universe(rep, plan, _worker, replay)
